@@ -614,6 +614,28 @@ def do_charge_statistics(ctx, rng, psi, vec, sites, kind, qt, case):
         q = gen.mod_valid(sum(s.leg.qconj * gen.leg_qflat(s.leg)[k] for s, k in zip(sites[:bond], idx)), mod)
         probs[tuple(q.tolist())] = probs.get(tuple(q.tolist()), 0) + pl[idx]
     probs = {k: v for k, v in probs.items() if v > 1e-14}
+    target = psi
+    if L >= 4 and rng.random() < 0.4:
+        # the same cut seen from a segment of the chain (canonical form of the full state): bond `bond` of psi is bond
+        # `bond - first` of the segment, the boundaries of the segment (bond 0 and bond L_seg) included
+        psi.canonical_form()
+        first = int(rng.integers(0, bond + 1)) if rng.random() < 0.5 else bond
+        low = max(first + 1, bond - 1)
+        last = -1
+        if low <= L - 1:
+            last = low if (rng.random() < 0.5) else int(rng.integers(low, L))
+        if last >= 0 and first <= bond <= last + 1:
+            target = psi.extract_segment(first, last)
+            case['options'].update(segment=[first, last])
+            ctx.count('charge_statistics.segment')
+            if bond == last + 1:
+                ctx.count('charge_statistics.segment_right_boundary')
+            bond_t = bond - first
+        else:
+            bond_t = bond
+    else:
+        bond_t = bond
+    psi_orig, psi, bond = psi, target, bond_t
     charges, ps = psi.probability_per_charge(bond)
     got = {}
     for c, p in zip(np.asarray(charges).tolist(), np.asarray(ps).tolist()):
